@@ -1,6 +1,7 @@
 package props
 
 import (
+	"encoding/hex"
 	"fmt"
 	"sort"
 	"strings"
@@ -8,6 +9,7 @@ import (
 	"time"
 
 	"verif/sim/rt"
+	"verif/sim/simkv"
 	"verif/sim/world"
 )
 
@@ -18,11 +20,20 @@ import (
 var c12Stacks = []struct {
 	engine  string
 	metrics bool
-}{{"memkv", false}, {"badger", false}, {"tikv", false}, {"badger", true}}
+	regions bool // TiKV mock cluster split into several regions at the scenario's borders
+}{{"memkv", false, false}, {"badger", false, false}, {"tikv", false, false}, {"badger", true, false}, {"tikv", false, true}}
 
 func genC12(r *rt.Rand, tier string, idx int) *world.Scenario {
 	sc := &world.Scenario{Prefix: prefix, InitRev: pickInitRev(r), Seed: r.Uint64(), EtcdCompat: true, Class: "sequential-history-on-4-engine-stacks"}
 	keys := []string{prefix + "/a", prefix + "/a/b", prefix + "/b", prefix + "/pods/ns/p1", prefix + "/events/ns/e1"}
+	if idx%3 == 0 {
+		// a fifth stack: the TiKV mock cluster split into regions at index records and inside keys' versions
+		sc.Class = "sequential-history-on-5-engine-stacks"
+		for i := 0; i < 1+r.Intn(3); i++ {
+			b := simkv.EncodeKey([]byte(keys[r.Intn(len(keys))]), []uint64{0, sc.InitRev + uint64(1+r.Intn(20))}[r.Intn(2)])
+			sc.Parts = append(sc.Parts, hex.EncodeToString(b))
+		}
+	}
 	var cl world.Client
 	n := 10 + r.Intn(25)
 	wid := 0
@@ -141,6 +152,19 @@ func c12Custom(t *testing.T, sc *world.Scenario, out *Outcome) {
 		name := st.engine
 		if st.metrics {
 			name += "+metrics"
+		}
+		s2.Parts = nil
+		if st.regions {
+			if len(sc.Parts) == 0 {
+				continue
+			}
+			name += "+regions"
+			s2.Parts = sc.Parts
+			if s2.Extra == nil {
+				s2.Extra = map[string]int64{}
+			}
+			s2.Extra["tikv_regions"] = 1
+			out.probe("stack-tikv-with-several-regions")
 		}
 		w, err := world.New(s2)
 		if err != nil {
